@@ -2,7 +2,7 @@
 # usage: tools/verify_seed.sh <Cxx>  — confirms a seeded change in a fresh scratch worktree:
 # patch applies, library builds, existing suite passes with it, demo fails with it and passes without it.
 set -u
-p="$1"; d=/tmp/scratch/seeds/$p; w=/tmp/scratch/verify-$p
+p="$1"; d=${SEED_DIR:-/verif/seeded}/$p; w=/tmp/scratch/verify-$p
 export GOFLAGS=-mod=mod GOPROXY=off GOSUMDB=off GOTOOLCHAIN=local
 git -C /repo worktree add -q "$w" HEAD || exit 2
 cd "$w"
